@@ -304,7 +304,7 @@ def r_expr(w, n, ind):
         for i, f in enumerate(n["fs"]):
             if i:
                 w.w(", ")
-            w.w(f["key"] + ": ")
+            w.w((f["key"] if re.fullmatch(r"[A-Za-z_][A-Za-z0-9_]*", f["key"]) else esc([ord(c) for c in f["key"]])) + ": ")
             r_expr(w, f["e"], ind)
         w.w(" }")
     elif k == "idx":
